@@ -1,5 +1,6 @@
 import BlackIt.Lemmas.RLProtocol
 import BlackIt.Lemmas.RLTermination
+import BlackIt.Properties.C19
 set_option linter.unusedSectionVars false
 set_option linter.unusedSimpArgs false
 set_option linter.unusedVariables false
@@ -171,6 +172,16 @@ theorem every_run_completes (f : List AgEv → Nat) (script : List (Nat × Bool)
   refine ⟨τ, e, hfull, ht, a, b, c, d', e'', g, ?_⟩
   intro σ' e' h' t'
   exact schedule_independent f { sessions := script } inv_init σ' (σ ++ τ) e' e h' t' hfull ht
+
+/-! ## the reward is computed from that very batch's outcome -/
+
+/-- `learned_eq_executed` says the outcomes reach the environment one at a time, in batch order, exactly once; over such a
+sequence the reward chain (scheduler's running best → environment's reward against its own reference) is, for every
+bootstrap loss and every sequence of per-batch minimum losses, the published rule applied to each batch's own outcome
+(re-export of `Bandit.runRewards_eq_rule`, so that it is audited with this property). -/
+theorem reward_from_own_outcome {α : Type} [Field α] [LinearOrder α] [IsStrictOrderedRing α] (boot : α) (losses : List α) :
+    Bandit.runRewards 0 boot losses = Bandit.rewardsByRule 0 boot losses :=
+  Bandit.runRewards_eq_rule boot losses
 
 /-! ### non-vacuity: two sessions, a failure, two different interleavings, same result -/
 section Example
